@@ -17,6 +17,7 @@ from .common import make_registry, install_trace_funcs, register_classes
 ROOT = os.path.dirname(os.path.dirname(os.path.abspath(__file__)))
 W = "wormhole/"
 
+MOODS = ["none", "happy", "lonely", "scary", "errory", "unwelcome"]
 RESULT_KINDS = ["empty", "happy", "lonely", "scary", "errory", "unwelcome", "conn_error", "other"]
 RESULT_CLASS = {"LonelyError": "lonely", "WrongPasswordError": "scary", "ServerError": "errory",
                 "WelcomeError": "unwelcome", "ServerConnectionError": "conn_error"}
@@ -66,8 +67,12 @@ def make_spec():
     }
     s.no_component = {("Boss", "_rx_phases"), ("Boss", "_rx_dilate_seqnums"), ("Boss", "_their_versions"),
                       ("Key", "_debug_pake_stashed"), ("Input", "_wordlist_waiters"),
-                      ("Mailbox", "_pending_outbound"), ("Mailbox", "_processed"), ("Input", "_all_nameplates"),
-                      ("Input", "_wordlist")}
+                      ("Mailbox", "_pending_outbound"), ("Mailbox", "_processed"), ("Input", "_all_nameplates")}
+    # what the pairwise template cannot see through a plain set / string: is 'pake' / 'version' already processed
+    # (the Mailbox forwards each phase once), and which mood the Mailbox has recorded
+    s.extra_components = [("M.pake_processed", "member", "M", "_processed", "pake"),
+                          ("M.version_processed", "member", "M", "_processed", "version"),
+                          ("M.mood", "mapped", "M", "_mood", list(MOODS))]
     s.const_fields = {
         "Boss": {"_side": "str", "_appid": "str", "_versions": "json", "_W": "obj[WormholeApp]",
                  "_url": "str"},
@@ -106,6 +111,8 @@ def prelink(objs):
 def setup(it, objs, initial=False):
     """shared constants and objects outside the table-driven part"""
     side = objs["B"].fields.get("_side")
+    # our own side is 16 hex digits chosen by the library (wormhole.create): ASCII
+    it.ctx.assume(z3.InRe(side.z, z3.Star(z3.Union(z3.Range("0", "9"), z3.Range("a", "f")))))
     for nm in ("M", "S", "O", "K", "SK", "R", "RC"):
         objs[nm].fields["_side"] = side
     for nm in ("K", "SK", "RC"):
@@ -179,6 +186,23 @@ def make_reg():
         return VStr(r, "bytes")
 
     fm[W + "util.py:HKDF"] = hkdf
+
+    def mailbox_drain(it, args, kw, fr):
+        """Mailbox._drain by its contract (proved on the real body in C09: one tx_add per pending phase, body
+        unchanged): afterwards every pending phase has been added on this connection"""
+        m = it.force(args[0])
+        g = it.reg.ghost_obj
+        it.ctx.prove(it.truth(it.getattr(m.fields["_RC"], "_ws")) if False else it.truth(m.fields["_RC"].fields["_ws"]),
+                     "assert@wormhole/_rendezvous.py:RendezvousConnector._tx:self._ws[via Mailbox._drain]",
+                     {"kind": "assert", "src": "self._ws (Mailbox._drain sends on the current connection)", "function": "RendezvousConnector._tx"})
+        it.ctx.prove(it.truth(g.fields["bound"]), "post:C09:bind-before-add", {"kind": "post", "src": "bind before add"})
+        po = m.fields["_pending_outbound"]
+        added = g.fields["added"]
+        k = z3.Const("k!drain", StringS)
+        added.z = z3.Lambda([k], z3.Or(added.z[k], po.present[k]))
+        return NONE
+
+    fm[W + "_mailbox.py:Mailbox._drain"] = mailbox_drain
 
     # ---- crypto libraries
     def secretbox_new(it, args, kw):
@@ -440,9 +464,6 @@ def make_reg():
         if k.startswith("global:wormhole/_wordlist.py"):
             reg.ext_models[k] = v
     return reg
-
-
-MOODS = ["none", "happy", "lonely", "scary", "errory", "unwelcome"]
 
 
 def mood_enum(it, mood):
@@ -775,8 +796,30 @@ ENTRIES = [
 ]
 
 
+TX_GHOST = ["bound", "claim_sent", "claim_owed", "release_sent", "release_owed", "open_sent", "close_sent", "close_owed",
+            "allocate_sent", "allocate_owed", "list_owed", "added", "tx_close_mood", "claimed_maybe", "opened_maybe"]
+
+
 def engine():
     e = MEngine("mailbox", make_reg, make_spec, ENTRIES, os.path.join(ROOT, "inv", "mailbox.json"))
+    # ghost state that boundary models / hooks may change (used when a loop in cluster code is cut: everything
+    # its body may change is havocked); an undeclared boundary call counts as touching all ghost state
+    e.ghost_effects = {
+        "WS.sendMessage": TX_GHOST,
+        "WormholeApp.*": ["w_code", "w_key", "w_verifier", "w_versions", "w_closed"],
+        "DilatorB.*": ["d_stop_called", "d_stopped_done"],
+        "SecretBox.decrypt": ["good_decrypt"], "SecretBox.encrypt": [], "SPAKE2.start": [], "SPAKE2.finish": [],
+        "sha256.digest": [], "ClientService.*": [],
+        "DeferredLike.*": ["stopped_pending", "stopped_done", "service_stopped", "error_cb_pending"],
+        "*.callback": [], "*.append": [], "*.add": [], "*.pop": [], "*.popleft": [], "*.startswith": [], "*.get": [],
+        "*.encode": [], "*.split": [], "*.items": [], "*.group": [], "*.digest": [], "*.lower": [], "*.join": [],
+        "PGPWordList.*": [], "Helper.*": [], "Undeclared__wordlist.*": [],
+        "func:decrypt_data": ["good_decrypt"],
+    }
+    e.input_ghost_effects = {("Boss", "happy"): ["happy_seen"], ("Boss", "scared"): ["scared_seen"],
+                             ("Boss", "rx_error"): ["server_error_seen"], ("Boss", "rx_unwelcome"): ["unwelcome_seen"],
+                             ("Terminator", "close"): ["close_mood"], ("Mailbox", "add_message"): ["version_added"]}
+    e.field_ghost_effects = {("Boss", "_result"): ["result_kind"], ("RendezvousConnector", "_stopping"): ["rc_stop_called"]}
     e.local_types = {W + "_rendezvous.py:RendezvousConnector._response_handle_nameplates": {"nids": "set[json]"},
                      W + "_input.py:Input._get_nameplate_completions": {"completions": "set[str]"}}
     return e
